@@ -54,6 +54,7 @@ type txSpec struct {
 	Faults      []txFault         `json:"faults,omitempty"`
 	Chain       []txLink          `json:"chain,omitempty"` // interrupted runs before the final, healthy one
 	Damage      []txDamage        `json:"damage,omitempty"`
+	DamageAfter int               `json:"damage_after_run,omitempty"`
 	EnumFault   bool              `json:"enumerate_fault_position,omitempty"`
 }
 
@@ -66,6 +67,8 @@ type txLink struct {
 	Chunk uint32              `json:"chunk_size_of_this_run,omitempty"` // sender was started with another --chunk-size
 }
 
+// (txSpec.DamageAfter: k>0 = the damage is applied after the k-th interrupted run, and
+// the remaining runs of the history meet it; 0 = after the last interrupted run)
 type txDamage struct {
 	Kind string `json:"kind"`
 	File int    `json:"file"`
